@@ -547,6 +547,50 @@ func runC11(c core.Case) core.Result {
 			}
 			res.Sample = map[string]any{"kind": "roundtrip", "reps": n, "codecs": "Data, Index, Footer, Meta, table.Build+read-back, WAL write/read/reopen", "first_entries": strings.Join(d, " ")}
 		}
+	case "huge":
+		// one very large value (16 MiB + 1 ... 20 MiB) among normal ones: wal record sequence, data
+		// block and whole table must still round-trip
+		r := rand.New(rand.NewSource(c.Seed))
+		dir := filepath.Join(core.WorkerScratch(), c.ID)
+		mustMkdir(dir)
+		defer os.RemoveAll(dir)
+		big := c11Bytes(r, (16<<20)+1+r.Intn(4<<20))
+		es := []types.Entry{{Key: "small@1", Value: []byte("s"), Version: 1}, {Key: "huge@2", Value: big, Version: 2}, {Key: "after@3", Value: []byte("t"), Version: 3}, {Key: "last@4", Value: c11Bytes(r, 1<<20), Version: 4}}
+		w, err := wal.Create(dir)
+		if err != nil {
+			res.Violate("C11", "C11/roundtrip/wal/create-error", "%v", err)
+			break
+		}
+		for _, e := range es {
+			if err := w.Write(e); err != nil {
+				res.Violate("C11", "C11/roundtrip/wal/write-error", "%v", err)
+			}
+		}
+		got, err := w.Read()
+		if err != nil {
+			res.Violate("C11", "C11/roundtrip/wal/read-error", "WAL.Read with a %d byte value: %v", len(big), err)
+		} else if diff := c11SameList(got, es); diff != "" {
+			res.Violate("C11", "C11/roundtrip/wal/len>=16MiB", "wal read-back with a %d byte value: %s", len(big), diff)
+		}
+		w.Delete()
+		d := table.Data{Entries: es}
+		if enc, err := d.Encode(); err != nil {
+			res.Violate("C11", "C11/roundtrip/data/encode-error", "%v", err)
+		} else {
+			var back table.Data
+			if err := back.Decode(enc); err != nil {
+				res.Violate("C11", "C11/roundtrip/data/len>=16MiB", "Data.Decode with a %d byte value: %v", len(big), err)
+			} else if diff := c11SameList(back.Entries, es); diff != "" {
+				res.Violate("C11", "C11/roundtrip/data/len>=16MiB", "data block with a %d byte value: %s", len(big), diff)
+			}
+		}
+		tindex, tbytes := table.Build(es, 4096, 0)
+		if msg := c11ReadTable(tbytes, tindex, es, 0); msg != "" {
+			res.Violate("C11", "C11/roundtrip/table/len>=16MiB", "table.Build with a %d byte value: %s", len(big), msg)
+		}
+		res.AddObs("huge_value_roundtrips", 3)
+		res.NonTrivial = true
+		res.Hash = fmt.Sprintf("huge-%d", c.Seed)
 	case "stability", "stability-race":
 		c11Stability(c, &res)
 		if c.Int("sample", 0) == 1 {
@@ -576,6 +620,13 @@ func genC11(tier string, seed int64) []core.Case {
 		}
 		cs = append(cs, c)
 	}
+	nhuge := 2
+	if tier == "thorough" {
+		nhuge = 12
+	}
+	for i := 0; i < nhuge; i++ {
+		cs = append(cs, core.Case{ID: fmt.Sprintf("huge%02d", i), Kind: "huge", Seed: r.Int63()})
+	}
 	for i := 0; i < nst; i++ {
 		c := core.Case{ID: fmt.Sprintf("stab%03d", i), Kind: "stability", Seed: r.Int63(), N: map[string]int64{"goroutines": int64([]int{1, 2, 4, 8, 16}[i%5]), "rounds": rounds}}
 		if i == 2 {
@@ -592,7 +643,7 @@ func genC11(tier string, seed int64) []core.Case {
 func init() {
 	core.Register(&core.Check{
 		Prop: "C11", Level: "exploration",
-		Rule: "roundtrip cases: 10 rounds each of decode(encode(x)) == x for Data, Index, Footer, Meta, table.Build read back through footer->index->data region and block by block->meta, and WAL write/read/reopen/append sequences, over generated entries (binary and empty keys/values, shared prefixes, lengths 0/1/255/256/65535/65536/70000 in every tenth case, versions 0/1/2^63-1, tombstones, block sizes 1..1MiB); stability cases: 1-16 goroutines encode and log concurrently, every returned slice is cloned at return and compared with its clone after further encodings (value check), and the same workload with smaller counts under the race detector (a reused pool buffer is reported as a race); non-trivial = a round with a length field >= 256 or a shared prefix > 0 / encodings that overlapped in time; distinct by seed",
+		Rule: "roundtrip cases: 10 rounds each of decode(encode(x)) == x for Data, Index, Footer, Meta, table.Build read back through footer->index->data region and block by block->meta, and WAL write/read/reopen/append sequences, over generated entries (binary and empty keys/values, shared prefixes, lengths 0/1/255/256/65535/65536/70000 in every tenth case, versions 0/1/2^63-1, tombstones, block sizes 1..1MiB), plus 'huge' cases with one 16-20 MiB value in a wal sequence, a data block and a table; stability cases: 1-16 goroutines encode and log concurrently, every returned slice is cloned at return and compared with its clone after further encodings (value check) while they also append batches to one shared wal whose read-back must hold every batch whole, contiguous and in order, and the same workload with smaller counts under the race detector (a reused pool buffer is reported as a race); non-trivial = a round with a length field >= 256 or a shared prefix > 0 / encodings that overlapped in time; distinct by seed",
 		Gen: genC11, Run: runC11, BatchSize: 4, GoMaxProcs: 4, Parallel: 6,
 		RaceKinds:     map[string]bool{"stability-race": true},
 		MinNonTrivial: map[string]int{"quick": 100, "thorough": 4000},
